@@ -125,7 +125,7 @@ func c12Run(r *Run, start, preamble string) {
 	flowOK := map[string]bool{}  // does the flow work at this history point with nothing paused?
 	adminOK := map[string]bool{} // same for the administrative transactions
 	bfs := &BFS{
-		SeqDepth: map[bool]int{true: 2, false: 1}[start == "FF" || r.Tier == "thorough"],
+		SeqDepth: map[string]int{"quick": map[bool]int{true: 2, false: 1}[start == "FF"], "thorough": 3}[r.Tier],
 		Scn:      scn, MaxDepth: 32, ValidatePaths: true,
 		Init: func(r *Run, w *World, root *Node) {
 			do := func(a Action) Outcome {
